@@ -120,6 +120,13 @@ def _pieces_and_clusters(ctx, rep):
     rep.ob('stream.stateless-only-without-dbcs', 'Converter._mark takes the stateless shortcut only for single-byte codepages',
            len(fast) == 1 and isinstance(fast[0]._parent, ast.If) and norm(fast[0]._parent.test) == 'not self._dbcs',
            'the shortcut also covers an empty chunk: converting in pieces and ending with an empty flushing call loses the held bytes', ctx.where(mk))
+    # any exit that hands the bytes on without the state machine is a stateless shortcut, however it is guarded: with a
+    # double-byte codepage a complete pair can be held back (box protection), and bytes emitted past it change order
+    raw = [r for r in rets if r.value is not None and 'iterchar(s)' in norm(r.value) and 'self._process' not in norm(r.value)]
+    rep.floor('stream.bytes-bypass-the-state-machine-only-without-dbcs', len(raw), 1, 'exits of _mark that do not go through _process')
+    for r in raw:
+        rep.ob('stream.bytes-bypass-the-state-machine-only-without-dbcs', '_mark: %s' % short(r, 60), fl.knows(r, 'not self._dbcs', True),
+               'bytes are emitted without _process in a double-byte codepage: a pair held for box protection comes out after them', ctx.where(r))
     fls = [n for n in own_nodes(mk) if isinstance(n, ast.If) and norm(n.test) == 'flush']
     rep.ob('stream.flush-whenever-asked', 'with flush=True the held bytes are always appended', len(fls) == 1 and 'self._flush()' in norm(fls[0].body[0]), '', ctx.where(mk))
     su = ctx.fn(CP + ':Codepage._split_unicode')
@@ -233,6 +240,9 @@ def variants(ctx):
         return lambda tree: f(mu.find_def(tree, f_name))
 
     return [
+        Va('no-lead-byte-fast-path', 'break', CP,
+           in_fn('Converter._mark', lambda fn: mu.insert_first(fn, 'if self._dbcs and len(self._buf) != 1 and self._cp.lead.isdisjoint(iterchar(s)):\n    return list(iterchar(s)) + (self._flush() if flush else [])')),
+           expect='stream.bytes-bypass-the-state-machine-only-without-dbcs'),
         mu.Variant('control-bytes-preserved-by-default', 'break', CP,
                    lambda tree: _set_default(mu.find_def(tree, 'Codepage.bytes_to_unicode'), 'preserve', 'CONTROL'), expect='defaults.no-byte-preserved'),
         Va('empty-flushing-chunk-ignored', 'break', CP,
